@@ -286,7 +286,7 @@ def shapes(tier, seed):
             out.append(Shape(f"aux/solver_rdm/{sv}/{key}", h_aux_solver_rdm, dict(key=key, solver=sv), modules=()))
     pads = [(3, 4, [0]), (4, 4, [0, 3]), (3, 2, [2]), (4, 6, [0, 1])]
     if tier == "thorough":
-        pads += [(4, 4, [0]), (4, 6, [0]), (4, 4, [3]), (4, 6, [1, 3])]
+        pads += [(4, 4, [0]), (4, 6, [0]), (4, 4, [3]), (4, 4, [1, 3])]
     for (n, ne, fr) in pads:
         try_name = f"pad/n{n}e{ne}/{fr}"
         out.append(Shape(try_name, h_pad, dict(n_mos=n, ne=ne, frozen=fr), modules=MODS, max_paths=8))
